@@ -324,6 +324,12 @@ class VecInterp(SE.Interp):
             if isinstance(base, tuple) and base[0] == "obj":
                 base[2][lhs0["name"]] = v
                 return
+            nm = H.local_name(H.unwrap(lhs0["base"]))
+            if isinstance(base, tuple) and base and base[0] == "t" and nm is not None and str(lhs0["name"]).isdigit() and int(lhs0["name"]) < len(base[1]):
+                items = list(base[1])          # `pair.0 = v` on a local tuple
+                items[int(lhs0["name"])] = v
+                env[nm] = ("t", tuple(items))
+                return
         return super().assign(lhs, v, env)
 
     def field(self, base, name):
@@ -547,8 +553,8 @@ class VecInterp(SE.Interp):
                 else:
                     recv.put(new)
                 return ("t", ())
-            if name in ("first", "last"):
-                return H.some(items[0] if name == "first" else items[-1]) if items else H.NONE_V
+            if name in ("first", "last", "first_mut", "last_mut"):
+                return H.some(items[0] if name in ("first", "first_mut") else items[-1]) if items else H.NONE_V
             if name in ("get", "get_mut") and isinstance(args[0], int):
                 return H.some(items[args[0]]) if 0 <= args[0] < len(items) else H.NONE_V
             if name == "partition_point":
@@ -630,6 +636,13 @@ class VecInterp(SE.Interp):
                         raise H.Unsupported("splice range out of bounds (would panic)")
                     recv.items[lo:hi] = [deep(args[1][1]) for _ in range(args[1][2])]
                     return ("t", ())
+                if name == "drain" and isinstance(args[0], tuple) and args[0][0] in ("rangefull", "rangefrom"):
+                    lo = 0 if args[0][0] == "rangefull" else args[0][1]
+                    if not 0 <= lo <= len(recv.items):
+                        raise H.Unsupported("drain range out of bounds (would panic)")
+                    out = recv.items[lo:]
+                    del recv.items[lo:]
+                    return Vec(out)
                 if name == "drain" and isinstance(args[0], tuple) and args[0][0] == "range":
                     lo, hi = args[0][1], args[0][2] + (1 if args[0][3] else 0)
                     if not 0 <= lo <= hi <= len(recv.items):
